@@ -7,6 +7,7 @@ C17  What a CL03 prover sends carries no opening.
   structures; the correspondence check compares every leaf.)
 * `commit_hiding_cl`: the value alone cannot confirm a guess: for `g ∈ ⟨h⟩` every other message `x'`
   has a (non-negative) randomness `r'` giving the same commitment value.
+* `opening_would_reveal_v`: had the proof carried the randomness of `C_v`, `v` is `C_v · g_0^{-w}`.
 * `opening_would_confirm`: had the proof carried `(value, randomness)` (the defect that was fixed),
   recomputing `g^{m'} h^{randomness}` confirms the guess `m' = m`, and a wrong guess passes only under
   an `OrderRelation` on `g`.
@@ -221,5 +222,24 @@ theorem opening_would_confirm (hA : ArithOK) (N g h : Int) (hN : 1 < N) (hg : In
   refine orderRelation_of_zsmul hN hgU (k := m - m') (by omega) ?_
   have h2 : m • rp N g = m' • rp N g := add_right_cancel this
   rw [sub_smul, h2, sub_self]
+
+/-- **The same defect for `v`.** Had the proof carried the randomness `w` of `C_v = v · g_0^w`, the
+signature component `v` is recovered (modulo `N`) as `C_v · g_0^{-w}`. With `C_v` stripped
+(`proof_has_no_opening`) this recomputation has no input `w`. -/
+theorem opening_would_reveal_v (hA : ArithOK) (N g0 v w gw Cv : Int) (hN : 1 < N)
+    (hg0 : Int.gcd g0 N = 1) (hv : Int.gcd v N = 1) (hgw : powMod g0 w N = some gw)
+    (hCv : Cv = tmod (v * gw) N) :
+    ∃ x, powMod g0 (-w) N = some x ∧ (Cv * x) % N = v % N := by
+  have hgU := isU_of_gcd (by omega) hg0
+  have hvU := isU_of_gcd (by omega) hv
+  rw [powMod_unit hA hN hgU] at hgw
+  obtain rfl := Option.some.inj hgw
+  refine ⟨_, powMod_unit hA hN hgU (-w), ?_⟩
+  have hCvU : IsU N Cv := by rw [hCv, isU_tmod (by omega)]; exact isU_mul hvU (isU_can hN _)
+  rw [emod_eq_can_rp hN (isU_mul hCvU (isU_can hN _)), emod_eq_can_rp hN hvU,
+    rp_mul hCvU (isU_can hN _), rp_can hN, hCv, rp_tmod (by omega), rp_mul hvU (isU_can hN _),
+    rp_can hN]
+  congr 1
+  module
 
 end Zk.C17
